@@ -1,11 +1,14 @@
 """harnesses - one module per property family; PLAN maps a property to the harnesses that decide it."""
-from . import k04, k13, k16, k20  # noqa: F401
+from . import k04, k11, k12, k13, k14, k16, k20  # noqa: F401
 
 PLAN = {
     "C03": ["K03"],
     "C04": ["K04a", "K16"],
     "C06": ["K06"],
-    "C13": ["K13a", "K13b"],
+    "C11": ["K11a", "K11b"],
+    "C12": ["K12a", "K12b", "K12d"],
+    "C13": ["K13a", "K13b", "K14b"],
+    "C14": ["K14a", "K14b"],
     "C16": ["K16"],
     "C20": ["K20a", "K20b"],
 }
